@@ -1319,3 +1319,18 @@ def field_writes(facts, adt_re, field):
                     prov = prov or Prov(b, facts)
                     out.append((b, blk.idx, s.line, "construct", prov.operand(s.rv.ops[s.rv.j["fields"].index(field)])))
     return out
+
+
+def flow_key(body, items, blk_of=lambda x: x[0]):
+    """sort key that orders call sites / statements by control flow independently of block numbering: the number of other items from whose
+    block this one is reachable (an item after a branch comes after both alternatives), ties broken by source line and block-free text"""
+    blocks = [blk_of(x) for x in items]
+    reach = {b: body.reachable(b) for b in set(blocks)}
+
+    def key(x):
+        b = blk_of(x)
+        n = sum(1 for o in blocks if o != b and b in reach[o] and o not in reach[b])
+        n_loop = sum(1 for o in blocks if o != b and b in reach[o] and o in reach[b])
+        line = body.blocks[b].term.line or 0
+        return (n, n_loop, line)
+    return key
